@@ -175,10 +175,14 @@ Definition rune_value (text : list Z) : option Z :=
 Section Floats.
 Variable fparse : list Z -> option Z.
 
-(* strconv.ParseComplex on a complex token  ( f1 s f2 i )  : the real part is the float
-   prefix f1; a '+' separator is consumed unless another '+' follows; the imaginary part
-   is then read with its own sign, so that "+-" is accepted and "++", "-+", "--" are
-   syntax errors; a range error of either part is an error. *)
+(* flipping the sign bit of a float64: Go's unary minus *)
+Definition fneg (bits : Z) : Z := if bits <? two63 then bits + two63 else bits - two63.
+
+(* a complex token  ( f1 s f2 i )  is split with the scanner's own expression into its two
+   float groups; both are converted by ParseFloat (each with its own optional sign) and the
+   imaginary part is negated when the separating sign s is a minus: every sentence of the
+   grammar rule  complex: "(" float sign float "i)"  has a value (repaired code, fix 35);
+   a range error of either part is an error. *)
 Definition complex_value (text : list Z) : option (Z * Z) :=
   match m_complex_parts text with
   | None => None
@@ -186,18 +190,9 @@ Definition complex_value (text : list Z) : option (Z * Z) :=
     let f1 := firstn n1 (skipn 1 text) in
     let s := nth (1 + n1) text 0 in
     let f2 := firstn n2 (skipn (2 + n1) text) in
-    let f2_signed := match f2 with c :: _ => is_sign c | [] => false end in
-    let f2_plus := match f2 with c :: _ => c =? 43 | [] => false end in
-    let imtext :=
-      if s =? 43 then (if f2_plus then None else Some f2)
-      else (if f2_signed then None else Some (45 :: f2)) in
-    match imtext with
-    | None => None
-    | Some it =>
-      match fparse f1, fparse it with
-      | Some re, Some im => Some (re, im)
-      | _, _ => None
-      end
+    match fparse f1, fparse f2 with
+    | Some re, Some im => Some (re, if s =? 45 then fneg im else im)
+    | _, _ => None
     end
   end.
 
